@@ -387,6 +387,11 @@ def _inline_temps_once(fn, q, ref, log):
                     pairs = [(e.id, v) for e, v in zip(t.elts, st.value.elts)]
                 if not pairs or any(n in ref or n in params or len(stores.get(n, [])) != 1 for n, _ in pairs):
                     continue
+                # containers that are filled afterwards are objects, not values: never substitute them
+                if any(isinstance(v, (ast.List, ast.Dict, ast.Set, ast.ListComp, ast.DictComp, ast.SetComp)) for _, v in pairs):
+                    continue
+                if any(_is_mutated(fn, n) for n, _ in pairs):
+                    continue
                 names_used = {x.id for _, v in pairs for x in ast.walk(v) if isinstance(x, ast.Name)}
                 attrs_used = {ast.unparse(x) for _, v in pairs for x in ast.walk(v) if isinstance(x, ast.Attribute)}
                 if any(isinstance(x, (ast.Call,)) and not _pure_call(x) for _, v in pairs for x in ast.walk(v)):
@@ -421,6 +426,25 @@ def _inline_temps_once(fn, q, ref, log):
     return changed
 
 
+def _is_mutated(fn, name):
+    for x in ast.walk(fn):
+        if isinstance(x, ast.Attribute) and isinstance(x.value, ast.Name) and x.value.id == name:
+            p_ok = isinstance(x.ctx, ast.Store)
+            if p_ok:
+                return True
+        if isinstance(x, ast.Call) and isinstance(x.func, ast.Attribute) and isinstance(x.func.value, ast.Name) \
+                and x.func.value.id == name and x.func.attr in ('append', 'extend', 'insert', 'pop', 'remove', 'sort', 'update', 'add',
+                                                                 'clear', 'setdefault', 'fill', 'resize'):
+            return True
+        if isinstance(x, ast.Subscript) and isinstance(x.ctx, ast.Store) and isinstance(x.value, ast.Name) and x.value.id == name:
+            return True
+        if isinstance(x, ast.AugAssign) and isinstance(x.target, (ast.Name, ast.Subscript)):
+            t = x.target.id if isinstance(x.target, ast.Name) else (x.target.value.id if isinstance(x.target.value, ast.Name) else None)
+            if t == name:
+                return True
+    return False
+
+
 _PURE = {'len', 'int', 'float', 'abs', 'min', 'max', 'tuple', 'list', 'isinstance', 'getattr', 'hasattr', 'range', 'zip', 'enumerate',
          'np.isnan', 'np.isfinite', 'np.arange', 'np.asarray', 'np.array', 'np.prod', 'np.sum', 'np.sqrt', 'np.cos', 'np.sin',
          'np.where', 'np.nonzero', 'np.any', 'np.all', 'np.zeros', 'np.ones', 'np.dot', 'np.broadcast_to', 'np.ogrid'}
@@ -448,6 +472,8 @@ def apply(tree, modname):
         if q not in ref_functions:
             continue
         ref = table.get(q) or {}
+        if not isinstance(ref, dict):
+            continue
         a = fn.args
         known = set(ref) | {x.arg for x in a.posonlyargs + a.args + a.kwonlyargs}
         if a.vararg:
@@ -458,8 +484,15 @@ def apply(tree, modname):
             dirty.append((q, fn))
     if dirty:
         undo_destructuring(dirty, table, log)
+    # pure renames first (a local that matches a missing reference local is that local, not a new temporary) ...
+    for q_, new_, old_ in canon.apply(tree, modname):
+        log.append(('rename', q_, f'{new_}->{old_}'))
+    if dirty:
+        # ... then whatever is still unknown to the reference and assigned once is a temporary
         inline_temporaries(dirty, table, log)
     canonical_shapes(tree, modname)
+    if dirty:
+        inline_temporaries(dirty, table, log)      # a temporary may only become substitutable after a loop became a comprehension
     return log
 
 
